@@ -197,4 +197,61 @@ H3Error cellToLocalIjk_mismatch(H3Index origin, H3Index h3, CoordIJK *out)
 __CPROVER_requires(__CPROVER_is_fresh(out, sizeof(CoordIJK)) && S_RES(origin) != S_RES(h3))
 __CPROVER_assigns(*out)
 __CPROVER_ensures(__CPROVER_return_value == S_ERR_RES_MISMATCH && out->i == __CPROVER_old(out->i) && out->j == __CPROVER_old(out->j) && out->k == __CPROVER_old(out->k));
+
+/* ---- unit-scaling wrappers (C12 totality, C18 frames): error pass-through and "output untouched on error"; the scaled VALUE is not
+ * stated: an equality of two double multiplications is a floating-point miter that did not finish */
+extern double h3v_dbl;      /* what the radians-level callee stores / returns */
+extern H3Error h3v_derr;    /* and its error code */
+#define S_EARTH_KM 6371.007180918475
+H3Error cellAreaRads2_ghost(H3Index cell, double *out)
+__CPROVER_requires(__CPROVER_rw_ok(out, sizeof(double)) && h3v_derr <= 15)
+__CPROVER_assigns(*out)
+__CPROVER_ensures(__CPROVER_return_value == h3v_derr && (h3v_derr == 0 ? *out == h3v_dbl : *out == __CPROVER_old(*out)));
+H3Error cellAreaKm2_contract(H3Index cell, double *out)
+__CPROVER_requires(__CPROVER_is_fresh(out, sizeof(double)) && h3v_derr <= 15 && h3v_dbl == h3v_dbl)
+__CPROVER_assigns(*out)
+__CPROVER_ensures(__CPROVER_return_value == h3v_derr)
+__CPROVER_ensures(h3v_derr != 0 ==> *out == __CPROVER_old(*out));
+H3Error cellAreaKm2_ghost(H3Index cell, double *out)
+__CPROVER_requires(__CPROVER_rw_ok(out, sizeof(double)) && h3v_derr <= 15)
+__CPROVER_assigns(*out)
+__CPROVER_ensures(__CPROVER_return_value == h3v_derr && (h3v_derr == 0 ? *out == h3v_dbl : *out == __CPROVER_old(*out)));
+H3Error cellAreaM2_contract(H3Index cell, double *out)
+__CPROVER_requires(__CPROVER_is_fresh(out, sizeof(double)) && h3v_derr <= 15 && h3v_dbl == h3v_dbl)
+__CPROVER_assigns(*out)
+__CPROVER_ensures(__CPROVER_return_value == h3v_derr)
+__CPROVER_ensures(h3v_derr != 0 ==> *out == __CPROVER_old(*out));
+double greatCircleDistanceRads_ghost(const LatLng *a, const LatLng *b)
+__CPROVER_requires(1) __CPROVER_assigns() __CPROVER_ensures(__CPROVER_return_value == h3v_dbl);
+double greatCircleDistanceKm_contract(const LatLng *a, const LatLng *b)
+__CPROVER_requires(1) __CPROVER_assigns() __CPROVER_ensures(1);
+double greatCircleDistanceKm_ghost(const LatLng *a, const LatLng *b)
+__CPROVER_requires(1) __CPROVER_assigns() __CPROVER_ensures(__CPROVER_return_value == h3v_dbl);
+double greatCircleDistanceM_contract(const LatLng *a, const LatLng *b)
+__CPROVER_requires(1) __CPROVER_assigns() __CPROVER_ensures(1);
+H3Error edgeLengthRads_ghost(H3Index edge, double *length)
+__CPROVER_requires(__CPROVER_rw_ok(length, sizeof(double)) && h3v_derr <= 15)
+__CPROVER_assigns(*length)
+__CPROVER_ensures(__CPROVER_return_value == h3v_derr && (h3v_derr == 0 ==> *length == h3v_dbl));
+H3Error edgeLengthKm_contract(H3Index edge, double *length)
+__CPROVER_requires(__CPROVER_is_fresh(length, sizeof(double)) && h3v_derr <= 15 && h3v_dbl == h3v_dbl)
+__CPROVER_assigns(*length)
+__CPROVER_ensures(__CPROVER_return_value == h3v_derr);
+H3Error edgeLengthKm_ghost(H3Index edge, double *length)
+__CPROVER_requires(__CPROVER_rw_ok(length, sizeof(double)) && h3v_derr <= 15)
+__CPROVER_assigns(*length)
+__CPROVER_ensures(__CPROVER_return_value == h3v_derr && (h3v_derr == 0 ==> *length == h3v_dbl));
+H3Error edgeLengthM_contract(H3Index edge, double *length)
+__CPROVER_requires(__CPROVER_is_fresh(length, sizeof(double)) && h3v_derr <= 15 && h3v_dbl == h3v_dbl)
+__CPROVER_assigns(*length)
+__CPROVER_ensures(__CPROVER_return_value == h3v_derr);
+double degsToRads_contract(double d) __CPROVER_requires(1) __CPROVER_assigns() __CPROVER_ensures(1);
+double radsToDegs_contract(double r) __CPROVER_requires(1) __CPROVER_assigns() __CPROVER_ensures(1);
+/* gridDiskUnsafe / gridDiskDistancesSafe: thin wrappers, error pass-through */
+H3Error gridDiskDistancesUnsafe_ghost(H3Index origin, int k, H3Index *out, int *distances)
+__CPROVER_requires(h3v_err <= 15) __CPROVER_assigns(__CPROVER_object_whole(out)) __CPROVER_ensures(__CPROVER_return_value == h3v_err && distances == NULL);
+H3Error gridDiskUnsafe_contract(H3Index origin, int k, H3Index *out)
+__CPROVER_requires(h3v_err <= 15 && h3v_n >= 1 && h3v_n <= (1 << 20) && __CPROVER_is_fresh(out, sizeof(H3Index) * h3v_n))
+__CPROVER_assigns(__CPROVER_object_whole(out))
+__CPROVER_ensures(__CPROVER_return_value == h3v_err);
 #endif
